@@ -5,6 +5,16 @@ V = os.path.dirname(os.path.dirname(os.path.abspath(__file__)))
 props = [json.loads(l) for l in open(os.path.join(V, "properties.jsonl"))]
 
 CLAIMS = {
+ "C10": dict(
+   text="Lean 4 theorem C10_full_holds over the model of the single-pass expander (expand_envs_in_token): for every environment - values containing $NAME, ${NAME}, $1, self or mutual references included - and every well-formed word of literal / $NAME / ${NAME} / $? / $$ segments, the result is exactly the concatenation of the current values with adjacent text preserved; the function is total, so termination holds by construction. Single-quoted tokens are never touched (C10_token_sq). The snapshot's rewrite loop is refuted by kernel-checked witnesses (rescan, divergence). Tied to /repo by in-process streams over all words of <= 2 segments (thorough 3) x 3 quotings x 12 environments, random words up to 6 segments, random `$`-heavy texts, and a sample through the binary.",
+   note="Trusted: Lean kernel; hand-written model; the gate env_in_token is modelled and checked differentially but the theorem takes its verdict as a hypothesis (C10_token_dq); std::env is two finite maps; tokens holding a newline are covered by the model but not by the word grammar of the theorem.",
+   technique="Lean 4 proof (fuel irrelevance + induction over segments) + model/implementation correspondence check",
+   design="DESIGN.md §6 C10"),
+ "C12": dict(
+   text="Lean 4 theorems over the model of brace_getitem/brace_getgroup, expand_brace, expand_home, expand_glob's filter and expand_brace_range: C12_brace (for every brace term of any nesting, any number of alternatives, empty alternatives and one-element groups, whatever the fuelled parser answers is the left-to-right cartesian product, and some fuel answers), C12_brace_token, C12_home, C12_order and C12_quoted_untouched (order kept, nothing inside quotes), C12_glob_* (matches in the matcher's order, hidden entries only on request, word kept when nothing matches, words with blanks tagged as one argument). Tied to /repo by in-process streams: grammar-generated terms, every string <= 7 over `{ } , a b`, range bounds incl. i32 limits with and without surrounding text, tilde words, `*` patterns in a fixture directory with the glob crate's own answers as oracle.",
+   note="Trusted: Lean kernel; hand-written model; the glob crate's matcher and sort order are an oracle parameter (exercised, not proved); the range sequence is checked against rangeSpec by the correspondence stream only (no theorem yet); fuel 2*len+2 of expand_brace is shown sufficient by the sweep, not by a theorem.",
+   technique="Lean 4 proof (mutual structural induction over brace terms, fuel monotonicity) + model/implementation correspondence check",
+   design="DESIGN.md §6 C12"),
  "C01": dict(
    text="Lean 4 theorem C01_partial over the hand-written model of line_to_cmds, parse_line, the seven expansion passes, env draining, the & test, pipe splitting, Command::from_tokens and tokens_to_redirections: for every environment and every list of single- or double-quoted arguments (any length, any characters the style can express, empty strings) after a plain program word, alone or before ; && ||, the first pipeline is planned as one stage whose argv is exactly those strings, with no redirection, stdin source, background flag or environment. The escaped style is refuted by kernel-checked witnesses and listed as 8 known-finding classes. Model tied to /repo by exhaustive in-process differential streams over the 29-symbol metacharacter alphabet (all texts <= 2 in every style/position/context, <= 3 as last argument; thorough one longer) and a sample through the real binary with an argv-recording helper.",
    note="Trusted: Lean kernel; the hand-written model (validated on generated inputs only); execve/CString conversion not modelled (NUL bytes excluded); the `| q` context and the escaped style are outside the proved domain (escaped style: open findings KF-C01-esc-*).",
